@@ -827,27 +827,76 @@ class Verifier(Engine):
             if isinstance(itv, VTuple):
                 # static tuple: unroll
                 states = [(s, None)]
-                for item in itv.items:
+                ls_ = self.fr.contract.loops.get(self.fr.loop_ordinals.get(id(stmt)))
+                for pos_, item in enumerate(itv.items):
                     nxt = []
                     for s2, sig in states:
                         if sig is not None:
                             nxt.append((s2, sig))
                             continue
+                        if ls_ is not None and ls_.index:
+                            s2.env[ls_.index] = VInt(pos_)      # ghost loop index of an unrolled (static) loop
                         for s3 in self.assign(s2, stmt.target, item, stmt):
                             for s4, sig4 in self.ex_block(stmt.body, s3):
                                 if sig4 is not None and sig4.kind == "continue":
                                     sig4 = None
                                 nxt.append((s4, sig4))
                     states = nxt
+                n_ = self.fr.loop_ordinals.get(id(stmt))
                 for s2, sig in states:
                     if sig is not None and sig.kind == "break":
                         outs.append((s2, None))
                     elif sig is None:
+                        if ls_ is not None and ls_.index:
+                            s2.env[ls_.index] = VInt(len(itv.items))
+                        self.run_ghosts(s2, "loop_exit", n_)
                         outs += self.ex_block(stmt.orelse, s2) if stmt.orelse else [(s2, None)]
                     else:
                         outs.append((s2, sig))
                 continue
+            if self.first_iteration_only(stmt):
+                outs += self.loop_first_only(stmt, s, itv)
+                continue
             outs += self.do_loop(stmt, s, itv)
+        return outs
+
+    def first_iteration_only(self, stmt):
+        """`for x in xs: ...; return / yield (first-mode)`: every path through the body leaves the function, so only the first
+        element is ever used (no invariant needed; also exact for a lazily evaluated generator, whose first item does not
+        depend on what the consumer does afterwards)"""
+        if stmt.orelse or not stmt.body:
+            return False
+        last = stmt.body[-1]
+        ends = isinstance(last, ast.Return) or (self.fr.contract.mode == "first" and isinstance(last, ast.Expr)
+                                                and isinstance(last.value, ast.Yield))
+        if not ends:
+            return False
+        for b in stmt.body:
+            for n in ast.walk(b):
+                if isinstance(n, (ast.Continue, ast.Break)):
+                    return False
+        return True
+
+    def loop_first_only(self, stmt, s, itv):
+        outs = []
+        if isinstance(itv, VSeq):
+            n, first = IS.len(itv.t), VInt(IS.at(itv.t, z3.IntVal(0)))
+        elif isinstance(itv, VList):
+            n, first = VS.len(itv.t), unbox(VS.at(itv.t, z3.IntVal(0)), itv.et)
+        else:
+            raise Unsupported(f"first-iteration-only loop over {itv!r}")
+        s_empty = s.fork()
+        s_empty.assume(n == 0)
+        if s_empty.feasible():
+            outs.append((s_empty, None))
+        s_some = s.fork()
+        s_some.assume(n > 0)
+        if s_some.feasible():
+            for s3 in self.assign(s_some, stmt.target, first, stmt):
+                for s4, sig4 in self.ex_block(stmt.body, s3):
+                    if sig4 is None:
+                        raise Unsupported("a path through a first-iteration-only loop body does not leave the function")
+                    outs.append((s4, sig4))
         return outs
 
     def loop_modified(self, stmt, st):
